@@ -374,8 +374,9 @@ def run(f, fixture, rep, cfg, tier):
             continue
         if v not in have or (cfg == "no-default"):
             continue
-        e = any(re.search(erx, c.decl) or re.search(erx, c.full) for c in enc_arms.get(v, []))
-        d = any(re.search(drx, c.decl) or re.search(drx, c.full) for c in dec_arms.get(v, []))
+        # the plain constructors (all defaults): a decoder built with limits or options may refuse what the encoder produced
+        e = any(re.search(erx + "$", c.decl) or re.search(erx + "$", c.full) for c in enc_arms.get(v, []))
+        d = any(re.search(drx + "$", c.decl) or re.search(drx + "$", c.full) for c in dec_arms.get(v, []))
         fi = any(re.search(frx, c.decl) or re.search(frx, c.full) for c in fin_arms.get(v, []))
         rep.check(e and d and fi, "R6", "codec|%s|families" % v, "%s: encoder, decoder and finish belong to one codec" % v,
                   "%s: encoder %s decoder %s finish %s" % (v, [c.decl for c in enc_arms.get(v, []) if "new" in c.decl][:2], [c.decl for c in dec_arms.get(v, []) if "new" in c.decl][:2], [c.decl for c in fin_arms.get(v, [])][:2]), ds.span)
